@@ -251,9 +251,18 @@ def tr_intersection(tree):
     env = Env(['istart', 'n_lhs', 'n_rhs'])
     out = []
     body = list(loop.body)
-    if not body or not isinstance(body[-1], ast.If):
-        fail(loop, 'loop must end with the if-chain')
-    simple_stmts(body[:-1], env, out)
+    if not body:
+        fail(loop, 'empty loop')
+    condensed = not isinstance(body[-1], ast.If)
+    if condensed and len(body) < 2:
+        fail(loop, 'loop must end with the if-chain or with two appends')
+    simple_stmts(body[:-1] if not condensed else body[:-2], env, out)
+
+    def sl_or_cond(node):
+        """SLICE | SLICE if B else SLICE   (the condensed form: recorded as written, the proofs decide)"""
+        if isinstance(node, ast.IfExp):
+            return '(if %s then %s else %s)' % (bool_test(node.test, env), sl_or_cond(node.body), sl_or_cond(node.orelse))
+        return slice_expr(node, env)
 
     def pair(stmts):
         if len(stmts) != 2:
@@ -267,7 +276,7 @@ def tr_intersection(tree):
                 fail(st, 'expected lhs_slc.append / rhs_slc.append')
             if c.func.value.id in got:
                 fail(st, 'duplicate append')
-            got[c.func.value.id] = slice_expr(c.args[0], env)
+            got[c.func.value.id] = sl_or_cond(c.args[0])
         return '(%s, %s)' % (got['lhs_slc'], got['rhs_slc'])
 
     def chain(node):
@@ -282,7 +291,7 @@ def tr_intersection(tree):
         return 'if %s then %s\n  else %s' % (test, then, els)
 
     return ('Definition intersection_slices (istart n_lhs n_rhs : Z) : pslice * pslice :=\n  '
-            + '\n  '.join(out) + '\n  ' + chain(body[-1]) + '.\n')
+            + '\n  '.join(out) + '\n  ' + (chain(body[-1]) if not condensed else pair(body[-2:])) + '.\n')
 
 
 def tr_assign_check(tree):
